@@ -143,6 +143,11 @@ class Run:
             print(f'{self.prop}: machinery failure ({len(self.machinery_errors)})')
             return 2
         if viol:
+            per = {}
+            for f in viol:
+                per[f['clause']] = per.get(f['clause'], 0) + 1
+            for c, n in sorted(per.items()):
+                print(f'  violations of {c}: {n}')
             print(f'{self.prop}: {len(seen)} distinct violation(s) in {self.cases} cases, {wall:.1f}s')
             return 1
         print(f"{self.prop}: held on {self.cases} cases ({len(self.nontrivial)} distinct non-trivial), "
